@@ -8,11 +8,12 @@
    (resynchronise from every authentic message, incl. the notInTimeWindow Report).
    PinFrozen re-enables the pinned behaviour (discovery values re-sent for ever; fixed by bb6eea0). *)
 EXTENDS Naturals, Integers, TLC
-CONSTANTS PinFrozen, Steps, MaxDepth
+CONSTANTS PinFrozen, Steps, MaxDepth,
+          InitBoots     \* snmpEngineBoots values the agent may start with (0 is legal: a factory-fresh engine)
 VARIABLES ab, at, now, lc, rebootPending, failsSinceReboot, last, nprobe
 vars == <<ab, at, now, lc, rebootPending, failsSinceReboot, last, nprobe>>
 None == [set |-> FALSE, boots |-> 0, time |-> 0, at |-> 0]
-Init == /\ ab = 1 /\ at = 1000 /\ now = 0 /\ lc = None /\ rebootPending = FALSE /\ failsSinceReboot = 0 /\ last = "none" /\ nprobe = 0
+Init == /\ ab \in InitBoots /\ at = 1000 /\ now = 0 /\ lc = None /\ rebootPending = FALSE /\ failsSinceReboot = 0 /\ last = "none" /\ nprobe = 0
 Advance(d) == /\ now' = now + d /\ at' = at + d /\ last' = "advance"
               /\ UNCHANGED <<ab, lc, rebootPending, failsSinceReboot, nprobe>>
 Reboot == /\ ab' = ab + 1 /\ at' = 0 /\ rebootPending' = lc.set /\ failsSinceReboot' = 0 /\ last' = "reboot"
